@@ -2255,3 +2255,102 @@ pub mod uninitfx {
         Some(a)
     }
 }
+
+// ---------------------------------------------------------------- R-CLAMPLOOP
+pub mod clampfx {
+    pub struct In<'a> { pub d: &'a [u8], pub p: usize }
+    impl<'a> In<'a> {
+        pub fn read_u32(&mut self) -> Result<u32, String> {
+            let b = self.d.get(self.p..self.p + 4).ok_or("eof")?;
+            self.p += 4;
+            Ok(u32::from_le_bytes([b[0], b[1], b[2], b[3]]))
+        }
+    }
+    const MAX_PREALLOC: usize = 4096;
+    pub fn ok_deserialize(input: &mut In) -> Result<Vec<u32>, String> {
+        let len = input.read_u32()? as usize;
+        let mut v = Vec::with_capacity(len.min(MAX_PREALLOC));
+        for _ in 0..len {
+            v.push(input.read_u32()?);
+        }
+        Ok(v)
+    }
+    pub fn bad_deserialize(input: &mut In) -> Result<Vec<u32>, String> {
+        let len = (input.read_u32()? as usize).min(MAX_PREALLOC);
+        let mut v = Vec::with_capacity(len);
+        for _ in 0..len {
+            v.push(input.read_u32()?);
+        }
+        Ok(v)
+    }
+}
+
+// ---------------------------------------------------------------- R-TAKEEXACT
+pub mod takefx {
+    use std::io::Read;
+    pub fn bad_section<R: Read>(r: &mut R, n: u64) -> Result<Vec<u8>, String> {
+        let mut buf = Vec::new();
+        r.by_ref().take(n).read_to_end(&mut buf).map_err(|e| e.to_string())?;
+        Ok(buf)
+    }
+    pub fn ok_section<R: Read>(r: &mut R, n: u64) -> Result<Vec<u8>, String> {
+        let mut buf = Vec::new();
+        let got = r.by_ref().take(n).read_to_end(&mut buf).map_err(|e| e.to_string())?;
+        if got as u64 != n {
+            return Err("section cut short".into());
+        }
+        Ok(buf)
+    }
+    pub fn ok_section_len<R: Read>(r: &mut R, n: u64) -> Result<Vec<u8>, String> {
+        let mut buf = Vec::new();
+        r.by_ref().take(n).read_to_end(&mut buf).map_err(|e| e.to_string())?;
+        if (buf.len() as u64) < n {
+            return Err("section cut short".into());
+        }
+        Ok(buf)
+    }
+}
+
+// ---------------------------------------------------------------- R-CREATE.truncate
+pub mod createfx {
+    use std::fs::{File, OpenOptions};
+    pub struct Out { pub f: File }
+    pub struct Out2 { pub f: File }
+    impl Out {
+        pub fn create(path: &std::path::Path, size: u64) -> std::io::Result<Out> {
+            let f = OpenOptions::new().read(true).write(true).create(true).truncate(true).open(path)?;
+            f.set_len(size)?;
+            Ok(Out { f })
+        }
+    }
+    impl Out2 {
+        pub fn create(path: &std::path::Path, size: u64) -> std::io::Result<Out2> {
+            let f = OpenOptions::new().read(true).write(true).create(true).open(path)?;
+            if f.metadata()?.len() < size {
+                f.set_len(size)?;
+            }
+            Ok(Out2 { f })
+        }
+    }
+}
+
+// ---------------------------------------------------------------- R-RELEASE / R-ORDER.untrack
+pub mod releasefx {
+    use std::ptr::NonNull;
+    pub struct Pool { pub free: std::sync::Mutex<Vec<usize>> }
+    impl Pool {
+        fn deallocate(&self, ptr: NonNull<u8>, _size: usize) -> Result<(), String> {
+            self.free.lock().unwrap().push(ptr.as_ptr() as usize);
+            Ok(())
+        }
+        pub fn ok_scrub_then_free(&self, ptr: NonNull<u8>, size: usize) -> Result<(), String> {
+            unsafe { std::ptr::write_bytes(ptr.as_ptr(), 0, size) };
+            self.deallocate(ptr, size)
+        }
+        pub fn bad_free_then_scrub(&self, ptr: NonNull<u8>, size: usize) -> Result<(), String> {
+            self.deallocate(ptr, size)?;
+            unsafe { std::ptr::write_bytes(ptr.as_ptr(), 0, size) };
+            Ok(())
+        }
+    }
+}
